@@ -17,6 +17,15 @@ CHECKS = {
  "C19": ("exploration", "reference-model state monitor + missing-root fault cases",
          "Ontology::categories/modifier and per-term is_modifier/categories are compared with the model on branch-rich generated ontologies; the three missing-root variants are driven through six construction paths and must yield Err.",
          "same trusted base as C01", "DESIGN.md §5 C19"),
+ "C04": ("exploration", "formula oracle (f64) on observed ancestor sets / IC / link sets for all ordered pairs x 8 algorithms x 3 kinds",
+         "Every built-in similarity is evaluated for all ordered pairs of every generated ontology and compared with an independent f64 evaluation of its formula on the *observed* lower-layer values; finiteness, non-negativity, symmetry, the documented special cases, Builtins-vs-struct identity and dispatch by name are asserted.",
+         "f32 vs f64 tolerance 1e-4*max(1,|v|); both readings of the contradictory all_union_ancestors docs accepted for GraphIC (one per run)", "DESIGN.md §5 C04"),
+ "C11": ("exploration", "BFS distance oracle + edge-by-edge walk validation for all ordered pairs",
+         "distance_to_ancestor, path_to_ancestor, distance_to_term and path_to_term are queried for all ordered pairs of every generated ontology (catalogue includes the 'ancestor with a shorter route over a higher common ancestor' pattern) and compared with BFS distances; every returned path is validated step by step against the supplied edges.",
+         "chain count between two terms capped (library recursion is exponential in diamonds); path_to_term(a,a) not judged", "DESIGN.md §5 C11"),
+ "C12": ("exploration", "operation-history monitor vs BTreeSet + exhaustive 6-id sub-space + set-algebra oracle on all term pairs",
+         "HpoGroup insertion histories (return values, duplicates, sizes across the inline limit of 30), every constructor, |, &, + id, | id in all ownership variants are checked against a BTreeSet; all 4096 ordered subset pairs of a 6-id universe are enumerated in every run; ancestor queries and their iterator twins are compared with the set algebra of observed ancestor sets for all ordered pairs. Thorough adds Miri and ASan runs of the group histories (smallvec is the unsafe code underneath).",
+         "all_union_ancestor_ids: both documented readings accepted, one per run", "DESIGN.md §5 C12"),
 }
 
 NOT_YET = {}
